@@ -184,26 +184,29 @@ Theorem C20_validated_store_total : forall (H : bytes -> bytes), (forall x, H x 
 Proof. exact store_valid_server. Qed.
 Print Assumptions C20_validated_store_total.
 
-(* export then import of a mierus:// link: for every validated profile, every server of it whose bindings do not
-   carry both a port and a range, and faithful library steps (hypotheses), the importer returns the part of the
-   profile a link carries *)
-Theorem C20_validated_link_roundtrip_partial :
+(* export then import of a mierus:// link (exporter with the fix 04ca7f3 "uses the port of a binding that has both a
+   port and a port range"): for EVERY validated profile and every server of it, under faithful library steps
+   (hypotheses), if the exporter produces a link the importer returns the part of the profile a link carries.
+   Remaining premises, all about library code: itoa/atoi, base64 emptiness, non-empty enum names; the transport of
+   user, password, host and query values by url.String/url.Parse and of enum numbers by the name tables is what
+   link_as_parsed assumes.  "export_server = Some f" holds for a validated profile iff its password is non-empty
+   (a hash-only profile cannot be shared as a link). *)
+Theorem C20_validated_link_roundtrip :
   forall (itoa : Z -> bytes) (b64 : bytes -> bytes) (mux_name hs_name : Z -> bytes),
   (forall n, (- 2 ^ 31 <= n < 2 ^ 31)%Z -> atoi (itoa n) = Some n) ->
   (forall x, b64 x = [] <-> x = []) ->
   (forall v, mux_name v <> []) -> (forall v, hs_name v <> []) ->
   forall p s f,
   validate_profile p = 0%N -> In s (p_servers p) ->
-  Forall binding_unambiguous (se_bindings s) ->
   export_server p s = Some f ->
   simple_link (link_as_parsed itoa b64 mux_name hs_name f) = Ok (simple_view p s f).
 Proof. exact link_roundtrip. Qed.
-Print Assumptions C20_validated_link_roundtrip_partial.
+Print Assumptions C20_validated_link_roundtrip.
 
-(* without the premise on the bindings the round trip fails for a validated profile *)
-Theorem C20_link_roundtrip_ambiguous_binding_refuted :
+(* the exporter of the pinned commit failed on a validated profile with a binding {port, garbage range} *)
+Theorem C20_validated_link_roundtrip_refuted_before_fix :
   validate_profile ex_ambiguous_profile = 0%N /\
-  exists s f, In s (p_servers ex_ambiguous_profile) /\ export_server ex_ambiguous_profile s = Some f /\
+  exists s f, In s (p_servers ex_ambiguous_profile) /\ export_server_v0 ex_ambiguous_profile s = Some f /\
     forall itoa b64 mn hn, simple_link (link_as_parsed itoa b64 mn hn f) = Err 14.
-Proof. exact link_roundtrip_ambiguous_binding_fails. Qed.
-Print Assumptions C20_link_roundtrip_ambiguous_binding_refuted.
+Proof. exact link_roundtrip_v0_ambiguous_binding_fails. Qed.
+Print Assumptions C20_validated_link_roundtrip_refuted_before_fix.
